@@ -22,6 +22,8 @@ def role_auth(g, variant):
     problems = []
     writes = [e for e in effects(g) if e.kind in ('sw', 'sr') and key_variant(e.key)[0] == variant]
     for a in auths(g):
+        if a.for_args:
+            continue      # require_auth_for_args binds a list chosen by the contract, not "that exact call" (seeded change C06-c)
         s = core(a.subject)
         if not is_sget(s, 'instance', variant):
             continue
